@@ -72,3 +72,12 @@ Check (C07_finish_only_live :
   forall st sid st', Inv st -> step st (OFinishResume sid) = (st', StOk) ->
     exists s f, sget sid (st_sess st) = Some s /\ s_res s = true /\
                 fget (s_fab s) (st_fabs st) = Some f /\ f_inc f = s_inc s).
+Check (C07_store_tight_all : forall st ops, Inv st -> store_tight (exec st ops)).
+Check (C07_store_tight_b_correct : forall st, store_tight_b st = true <-> store_tight st).
+Check (C07_incarnation_never_returns :
+  forall st ops c, Inv st -> c < st_ninc st -> (forall f, In f (st_fabs st) -> f_inc f <> c) ->
+    forall f, In f (st_fabs (exec st ops)) -> f_inc f <> c).
+Check (C07_removed_not_reloadable :
+  forall st sid i f st', Inv st -> fget i (st_fabs st) = Some f ->
+    step st (ORemove sid i) = (st', StOk) ->
+    fget i (st_kvfabs st') = None /\ (forall r, In r (st_kvrecs st') -> r_fab r <> i)).
